@@ -11,6 +11,8 @@ pub mod c13;
 pub mod c16;
 pub mod c17;
 pub mod c18;
+pub mod c19;
+pub mod c20;
 pub mod findings;
 
 use crate::common::{Report, Tier};
@@ -29,6 +31,8 @@ pub fn run(id: &str, tier: Tier) -> Option<Report> {
         "C16" => c16::run(tier),
         "C17" => c17::run(tier),
         "C18" => c18::run(tier),
+        "C19" => c19::run(tier),
+        "C20" => c20::run(tier),
         _ => return None,
     })
 }
